@@ -13,8 +13,8 @@ from ..vloop import RES
 PID = "C14"
 RULE = (
     "cases = scripts of subscribe_eventgroup / stop_subscribe_eventgroup (no duplicate subscribes of a pair) / start / stop "
-    "of the ServiceSubscriber for 4 eventgroups (IPv4 and IPv6 local endpoints, UDP and TCP, two of them with the same ids "
-    "but different local endpoints) and 3 servers, with SUBSCRIBE_TTL 5 and refresh interval from {1, 3} or infinite TTL "
+    "of the ServiceSubscriber for 6 eventgroups (IPv4 and IPv6 local endpoints, UDP and TCP, two of them with the same ids "
+    "but different local endpoints, two pairs sharing a local address and port with different transport protocols) and 3 servers, with SUBSCRIBE_TTL 5 and refresh interval from {1, 3} or infinite TTL "
     "without refresh; steps placed by delay, relative to the pending refresh tick (-4RES, -RES/4, +RES/4, +4RES, halfway) or "
     "inside one iteration (several calls, both orders). A model server per destination applies the transmitted Subscribe / "
     "StopSubscribe entries in order. non-trivial = stop-subscribe and subscribe of the same eventgroup in one iteration, or "
@@ -31,6 +31,8 @@ EGS = [
     (0x5000, 1, 1, 2, ("2001:db8::1", 5001, 0, 0), 17),
     (0x5001, 2, 3, 1, ("10.0.0.1", 5002), 6),
     (0x5000, 1, 1, 1, ("10.0.0.1", 5003), 17),
+    (0x5002, 1, 1, 3, ("10.0.0.1", 5000), 6),       # same local address and port as the first one, TCP instead of UDP
+    (0x5002, 1, 1, 4, ("2001:db8::1", 5001, 0, 0), 6),
 ]
 
 when_st = st.one_of(
@@ -45,7 +47,7 @@ def _step(draw):
     op = draw(st.sampled_from(["sub", "sub", "sub", "unsub", "unsub", "start", "stop", "wait"]))
     s = {"op": op, "when": draw(when_st)}
     if op in ("sub", "unsub"):
-        s.update(e=draw(st.integers(0, 3)), srv=draw(st.integers(0, 2)))
+        s.update(e=draw(st.integers(0, 5)), srv=draw(st.integers(0, 2)))
     return s
 
 
@@ -63,6 +65,7 @@ def fixed_cases(tier):
             {"ttl": ttl, "steps": [st0, S(0, 0, ["d", 0.1]), U(0, 0, ["s"]), {"op": "wait", "when": ["d", 2.5]}]},
             {"ttl": ttl, "steps": [st0, S(0, 0, ["d", 0.1]), U(0, 0, ["d", 0.5]), S(0, 0, ["s"]), {"op": "wait", "when": ["d", 2.5]}]},
             {"ttl": ttl, "steps": [st0, S(0, 0, ["d", 0.1]), S(1, 1, ["s"]), S(2, 2, ["s"]), S(3, 0, ["s"]), {"op": "stop", "when": ["d", 0.5]}, {"op": "wait", "when": ["d", 2.5]}]},
+            {"ttl": ttl, "steps": [st0, S(0, 0, ["d", 0.1]), S(4, 0, ["d", 0.1]), S(5, 1, ["s"]), S(1, 1, ["s"]), {"op": "wait", "when": ["d", 2.5]}]},
             {"ttl": ttl, "steps": [S(0, 0, ["d", 0.1]), S(1, 0, ["s"]), st0, {"op": "wait", "when": ["d", 2.5]}, {"op": "stop", "when": ["d", 0.1]}, {"op": "start", "when": ["s"]}, {"op": "wait", "when": ["d", 2.5]}]},
         ]
         for off in ("-4", "-q", "+q", "+4"):
